@@ -1,5 +1,5 @@
 import CanvasProofs.Lemmas.C16Reorder
-/-! Lemmas for C16 (c): for embedding levels 0/1 reorderSpans re-tiles the same interval. -/
+/-! Lemmas for C16 (c): contiguous layouts and tilings of an interval by spans. -/
 namespace Canvas.C16
 
 /-- spans laid out left to right without gap or overlap starting at `x` -/
@@ -47,188 +47,5 @@ theorem tiles_cons {x0 : Int} {s : Span Int} {t : List (Span Int)} (hs : s.x = x
     Tiles x0 (s :: t) := by
   have : Tiles x0 ([s] ++ t) := tiles_append ⟨[s], List.Perm.refl _, by simp [Contig, hs]⟩ (by simpa [sumw] using ht)
   simpa using this
-
-theorem relayRev_contig (l : List (Span Int)) : ∀ x, Contig x (relayRev x l) := by
-  induction l with
-  | nil => intro x; simp [relayRev, Contig]
-  | cons s r ih => intro x; simp [relayRev, Contig, ih]
-
-theorem relayRev_sumw (l : List (Span Int)) : ∀ x, sumw (relayRev x l) = sumw l := by
-  induction l with
-  | nil => intro x; rfl
-  | cons s r ih => intro x; simp [relayRev, sumw, ih]
-
-theorem relayRev_level (l : List (Span Int)) : ∀ x, ∀ s ∈ relayRev x l, ∃ t ∈ l, s.level = t.level := by
-  induction l with
-  | nil => intro x s h; simp [relayRev] at h
-  | cons a r ih =>
-    intro x s h
-    simp only [relayRev, List.mem_cons] at h
-    rcases h with rfl | h
-    · exact ⟨a, List.mem_cons_self .., rfl⟩
-    · obtain ⟨t, ht, hl⟩ := ih _ s h
-      exact ⟨t, List.mem_cons_of_mem _ ht, hl⟩
-
-theorem relayRev_length (l : List (Span Int)) : ∀ x, (relayRev x l).length = l.length := by
-  induction l with
-  | nil => intro x; rfl
-  | cons s r ih => intro x; simp [relayRev, ih]
-
-theorem relayout_tiles (run : List (Span Int)) (x0 : Int) : Tiles x0 (relayout run x0) :=
-  ⟨relayRev x0 run.reverse, by unfold relayout; exact (List.reverse_perm _).symm, relayRev_contig _ _⟩
-
-theorem relayout_sumw (run : List (Span Int)) (x0 : Int) : sumw (relayout run x0) = sumw run := by
-  unfold relayout
-  rw [sumw_perm (List.reverse_perm _), relayRev_sumw, sumw_perm (List.reverse_perm _)]
-
-theorem relayout_level1 (run : List (Span Int)) (x0 : Int) (h : ∀ s ∈ run, s.level = 1) :
-    ∀ s ∈ relayout run x0, s.level = 1 := by
-  intro s hs
-  unfold relayout at hs
-  obtain ⟨t, ht, hl⟩ := relayRev_level _ _ s (List.mem_reverse.mp hs)
-  rw [hl]; exact h t (List.mem_reverse.mp ht)
-
-theorem relayout_length (run : List (Span Int)) (x0 : Int) : (relayout run x0).length = run.length := by
-  unfold relayout; simp [relayRev_length]
-
-/-- inside an already laid out run (prev = 1) level-1 spans are passed through -/
-theorem go_pass (a : List (Span Int)) (ha : ∀ s ∈ a, s.level = 1) : ∀ (fuel : Nat) (tail : List (Span Int)),
-    a.length ≤ fuel → reorderGo fuel 1 (a ++ tail) = a ++ reorderGo (fuel - a.length) 1 tail := by
-  induction a with
-  | nil => intro fuel tail _; simp
-  | cons s r ih =>
-    intro fuel tail hf
-    cases fuel with
-    | zero => simp at hf
-    | succ fuel =>
-      have hs : s.level = 1 := ha s (List.mem_cons_self ..)
-      simp only [List.cons_append, reorderGo, hs, Nat.lt_irrefl, if_false, List.length_cons]
-      rw [ih (fun t ht => ha t (List.mem_cons_of_mem _ ht)) fuel tail (by simpa using hf)]
-      simp
-
-/-- a tail that is empty or starts at level 0 is processed the same way after a level-1 run -/
-theorem go_prev (fuel : Nat) (tail : List (Span Int)) (h : ∀ t ∈ tail.head?, t.level = 0) :
-    reorderGo fuel 1 tail = reorderGo fuel 0 tail := by
-  cases fuel with
-  | zero => simp [reorderGo]
-  | succ fuel =>
-    cases tail with
-    | nil => simp [reorderGo]
-    | cons t ts =>
-      have ht : t.level = 0 := h t (by simp)
-      simp [reorderGo, ht]
-
-theorem head_drop_takeWhile {β : Type} (p : β → Bool) (l : List β) :
-    ∀ t ∈ (l.drop (l.takeWhile p).length).head?, p t = false := by
-  induction l with
-  | nil => simp
-  | cons a r ih =>
-    simp only [List.takeWhile]
-    split
-    · simpa using ih
-    · rename_i h; simp; simpa using h
-
-theorem contig_sum {x : Int} {a b : List (Span Int)} (h : Contig x (a ++ b)) : Contig (x + sumw a) b :=
-  ((contig_append a b x).mp h).2
-
-theorem go_tiles : ∀ (fuel : Nat) (l : List (Span Int)) (x0 : Int), l.length ≤ fuel → (∀ s ∈ l, s.level ≤ 1) →
-    Contig x0 l → Tiles x0 (reorderGo fuel 0 l) := by
-  intro fuel
-  induction fuel using Nat.strongRecOn with
-  | _ fuel ih =>
-    intro l x0 hlen hl hc
-    cases fuel with
-    | zero =>
-      have : l = [] := List.eq_nil_of_length_eq_zero (by omega)
-      subst this
-      exact ⟨[], List.Perm.refl _, trivial⟩
-    | succ fuel =>
-      cases l with
-      | nil => exact ⟨[], by simp [reorderGo], trivial⟩
-      | cons s rest =>
-        have hs1 := hl s (List.mem_cons_self ..)
-        have hrest : ∀ t ∈ rest, t.level ≤ 1 := fun t ht => hl t (List.mem_cons_of_mem _ ht)
-        simp only [Contig] at hc
-        by_cases hs : s.level = 0
-        · -- level 0: stays
-          have : reorderGo (fuel + 1) 0 (s :: rest) = s :: reorderGo fuel 0 rest := by
-            simp [reorderGo, hs]
-          rw [this]
-          exact tiles_cons hc.1 (ih fuel (by omega) rest _ (by simpa using hlen) hrest hc.2)
-        · have hs' : s.level = 1 := by omega
-          -- the maximal run of level-1 spans
-          have hsplit := takeWhile_append_drop (fun t : Span Int => decide (s.level ≤ t.level)) rest
-          generalize hin : List.takeWhile (fun t : Span Int => decide (s.level ≤ t.level)) rest = inRun at hsplit
-          generalize htl : List.drop inRun.length rest = tail at hsplit
-          have hin1 : ∀ t ∈ inRun, t.level = 1 := by
-            intro t ht
-            have h1 := mem_takeWhile_level _ _ t (hin ▸ ht)
-            have h2 := hrest t (by rw [← hsplit]; exact List.mem_append_left _ ht)
-            omega
-          have hrun1 : ∀ t ∈ s :: inRun, t.level = 1 := by
-            intro t ht
-            simp only [List.mem_cons] at ht
-            rcases ht with rfl | ht
-            · exact hs'
-            · exact hin1 t ht
-          have htail0 : ∀ t ∈ tail.head?, t.level = 0 := by
-            intro t ht
-            have := head_drop_takeWhile (fun t : Span Int => decide (s.level ≤ t.level)) rest t (by rw [hin, htl]; exact ht)
-            simp at this; omega
-          have hcr : Contig x0 ((s :: inRun) ++ tail) := by
-            simp only [List.cons_append, hsplit, Contig]; exact hc
-          have hct := contig_sum hcr
-          have hlen2 : inRun.length + tail.length = rest.length := by rw [← hsplit]; simp
-          -- the relaid run
-          obtain ⟨run', hrun', hr1, hr2, hr3, hr4⟩ : ∃ run', (if 1 < (s :: inRun).length then relayout (s :: inRun) (if s.level % 2 = 1 then s.x else ((s :: inRun).getLast?.getD s).x) else s :: inRun) = run'
-              ∧ Tiles x0 run' ∧ sumw run' = sumw (s :: inRun) ∧ (∀ t ∈ run', t.level = 1) ∧ run'.length = (s :: inRun).length := by
-            refine ⟨_, rfl, ?_, ?_, ?_, ?_⟩
-            · split
-              · simp only [hs', Nat.one_mod, if_true, hc.1]; exact relayout_tiles _ _
-              · exact ⟨_, List.Perm.refl _, ((contig_append _ _ _).mp hcr).1⟩
-            · split
-              · exact relayout_sumw _ _
-              · rfl
-            · split
-              · exact relayout_level1 _ _ hrun1
-              · exact hrun1
-            · split
-              · exact relayout_length _ _
-              · rfl
-          cases run' with
-          | nil => simp at hr4
-          | cons h' t' =>
-            have hgo : reorderGo (fuel + 1) 0 (s :: rest) = h' :: reorderGo fuel 1 (t' ++ tail) := by
-              have hin' := hin
-              simp only [hs'] at hin'
-              simp only [reorderGo, hs', Nat.zero_lt_one, if_true]
-              rw [hin', htl]
-              simp only [hs', Nat.one_mod, if_true] at hrun'
-              rw [hrun']
-              simp
-            have ht'len : t'.length = inRun.length := by simpa using hr4
-            rw [hgo, go_pass t' (fun t ht => hr3 t (List.mem_cons_of_mem _ ht)) fuel tail (by simp at hlen; omega),
-              go_prev _ _ htail0]
-            have : Tiles x0 ((h' :: t') ++ reorderGo (fuel - t'.length) 0 tail) := by
-              apply tiles_append hr1
-              rw [hr2]
-              exact ih (fuel - t'.length) (by omega) tail _ (by simp at hlen; omega)
-                (fun t ht => hrest t (by rw [← hsplit]; exact List.mem_append_right _ ht)) hct
-            simpa using this
-
-theorem reorder_tiles (x0 : Int) (l : List (Span Int)) (hc : Contig x0 l) (hl : ∀ s ∈ l, s.level ≤ 1) :
-    Tiles x0 (reorder l) :=
-  go_tiles l.length l x0 (Nat.le_refl _) hl hc
-
-theorem tiles_witness_false : ¬ Tiles 0 (reorder [(⟨2, 0, 3⟩ : Span Int), ⟨2, 3, 4⟩, ⟨1, 7, 5⟩]) := by
-  intro ⟨p, hp, hc⟩
-  have hx : ∀ s ∈ reorder [(⟨2, 0, 3⟩ : Span Int), ⟨2, 3, 4⟩, ⟨1, 7, 5⟩], s.x ≠ 0 := by decide
-  cases p with
-  | nil =>
-    have h3 : (reorder [(⟨2, 0, 3⟩ : Span Int), ⟨2, 3, 4⟩, ⟨1, 7, 5⟩]).length = 3 := by decide
-    have := hp.length_eq
-    simp [h3] at this
-  | cons s r =>
-    exact hx s (hp.subset (List.mem_cons_self ..)) hc.1
 
 end Canvas.C16
